@@ -159,7 +159,7 @@ func (fc *FnCtx) trCall(st *State, call *ast.CallExpr) []Val {
 			return nil
 		}
 		switch fn.Name() {
-		case "forall", "exists", "implies", "ite", "iteS", "byteStr", "reMatch", "reGroup", "itoa", "reMatchDyn", "reSpan", "reAny", "reReplace":
+		case "forall", "exists", "implies", "ite", "iteS", "byteStr", "reMatch", "reGroup", "itoa", "reMatchDyn", "reSpan", "reAny", "reReplace", "noNL":
 			return []Val{fc.trHelper(st, fn.Name(), call)}
 		}
 	}
@@ -539,7 +539,7 @@ func (fc *FnCtx) trContractCall(st *State, call *ast.CallExpr) Val {
 		body := fc.tr(st, ret.Results[0])
 		fc.scope = saved
 		return boolVal("(forall ((" + bound + " Str)) (=> (wfstr " + bound + ") " + body.T + "))")
-	case "implies", "ite", "iteS", "forall", "exists", "byteStr", "reMatch", "reGroup", "itoa", "reMatchDyn", "reSpan", "reAny", "reReplace":
+	case "implies", "ite", "iteS", "forall", "exists", "byteStr", "reMatch", "reGroup", "itoa", "reMatchDyn", "reSpan", "reAny", "reReplace", "noNL":
 		return fc.trHelper(st, name, call)
 	}
 	return fc.trContractCall2(st, call, name)
@@ -551,6 +551,9 @@ func (fc *FnCtx) trHelper(st *State, name string, call *ast.CallExpr) Val {
 	case "byteStr":
 		v := fc.tr(st, call.Args[0])
 		return Val{T: "(appendbyte emptystr " + v.T + ")", S: SStr}
+	case "noNL":
+		v := fc.tr(st, call.Args[0])
+		return boolVal("(nonl " + v.T + ")")
 	case "itoa":
 		v := fc.tr(st, call.Args[0])
 		return Val{T: "(itoa " + v.T + ")", S: SStr}
